@@ -114,6 +114,10 @@ def variants_for(prop: str) -> List[Dict[str, Any]]:
                 continue
             meta = json.loads(m.read_text())
             caught = meta.get('caught_by', {})
+            if meta.get('now_twin') and prop in meta.get('twin_for', [meta.get('property')]):
+                # a seeded change that a later repair of pydoctor turned into a behaviour-preserving edit: must be silent now
+                out.append({'name': f'seeded/{d.name} (behaviour-preserving since {meta["now_twin"]})', 'kind': 'twin', 'patch': str(d / 'patch.diff')})
+                continue
             if prop in caught:
                 out.append({'name': f'seeded/{d.name}', 'kind': 'break', 'patch': str(d / 'patch.diff'), 'expect': caught[prop]})
     return out
